@@ -86,6 +86,13 @@ def pyIsSpace (c : Char) : Bool :=
 def pyStripL (cs : List Char) : List Char :=
   ((cs.dropWhile pyIsSpace).reverse.dropWhile pyIsSpace).reverse
 
+/-- the blanks `int()` and `float()` strip: `str.isspace` without the four ASCII separators
+    U+001C..U+001F (`float('1\x1f')` is a `ValueError` although `'\x1f'.isspace()`) -/
+def pyIsNumSpace (c : Char) : Bool := pyIsSpace c && !(0x1C ≤ c.toNat && c.toNat ≤ 0x1F)
+
+def pyNumStripL (cs : List Char) : List Char :=
+  ((cs.dropWhile pyIsNumSpace).reverse.dropWhile pyIsNumSpace).reverse
+
 /-- drop the single underscores Python allows between digits (`1_000`); `none` when an underscore is
     leading, trailing or doubled -/
 def dropDigitSeparators : List Char → Option (List Char)
@@ -103,7 +110,7 @@ def dropDigitSeparators : List Char → Option (List Char)
     `str.isspace` table), an optional `+`, ASCII digits with single underscores between them.
     (Not modelled, never generated: a `-` sign, non-ASCII digits.) -/
 def pyInt (s : String) : Option Nat :=
-  let cs0 := pyStripL s.toList
+  let cs0 := pyNumStripL s.toList
   let cs := match cs0 with | '+' :: r => r | r => r
   match dropDigitSeparators cs with
   | none => none
